@@ -319,6 +319,7 @@ def run_in(root, case):
     after = lint_reading(root, names)
     return {"rc": rc, "exc": None if exc is None else "%s: %s" % (type(exc).__name__, str(exc)[:160]),
             "before": before, "after": after, "binary": binary,
+            "before_files": {k: v for k, v in before_snap.items() if any(k in (n, n + ".license") for n in names)},
             "changed": sorted(k for k in set(before_snap) | set(after_snap) if before_snap.get(k) != after_snap.get(k)),
             "after_files": {k: v for k, v in after_snap.items() if before_snap.get(k) != v}}
 
@@ -458,6 +459,10 @@ def judge_file(case, f, rec, single_rc):
     if other_changed:
         return "wrote-elsewhere: %r changed" % (other_changed,)
     before, after = rec["before"][name], rec["after"][name]
+    # a binary file, a file of an uncommentable type and any file under --force-dot-license is never written into
+    must_dot = f.get("kind") == "binary" or (f.get("entry") or ["", "", ""])[2] == "UncommentableCommentStyle" or case.get("dot") == "force"
+    if must_dot and name in target_changed and not name.endswith(".license"):
+        return "wrote-into-file: %r itself was modified although the header belongs in %r" % (name, name + ".license")
     if single_rc != 0:
         if target_changed:
             return "failed-but-wrote: exit %s yet %r changed" % (single_rc, target_changed)
@@ -470,8 +475,13 @@ def judge_file(case, f, rec, single_rc):
     got = (set(after["cpr"]), {norm_lic(x) for x in after["lic"]}, set(after["con"]))
     if not target_changed:
         # exit 0, nothing written: a documented skip, or everything requested was there already
-        if case.get("skip_existing") and (before["cpr"] or before["lic"] or before["con"] or f.get("has_info")):
-            return None
+        if case.get("skip_existing"):
+            # --skip-existing: "files that already contain REUSE information" (any tag, contributors included, anywhere in the file)
+            tgt = name + ".license" if name + ".license" in rec.get("before_files", {}) else name
+            had = rec.get("before_files", {}).get(tgt)
+            info = lint_read_bytes(bytes.fromhex(had[1]), window=False) if had and had[0] == "file" else None
+            if info is not None and any(info):
+                return None
         if case.get("dot") == "skip" and f.get("kind") == "unrecognised" and not case.get("style"):
             return None
         if not missing(want, got, merged):
